@@ -1,0 +1,60 @@
+//go:build verif
+
+// Contracts for the deductive verification in /verif (govc).  This file is
+// comment-only: it adds no code.  Syntax: /verif/DESIGN.md section 2.4.
+
+package lang
+
+// ---------------------------------------------------------------- C12: positions
+
+//@ spec func nl(s string, k int) int
+//@ axiom nl0: forall s string :: {nl(s, 0)} nl(s, 0) == 0
+//@ axiom nlstep: forall s string, k int :: {nl(s, k+1)} 0 <= k && k < len(s) ==> nl(s, k+1) == nl(s, k) + (s[k] == '\n' ? 1 : 0)
+
+//@ spec func lineAt(src string, a int, srcLine string, line int) bool = 0 <= a && a + len(srcLine) <= len(src)
+//@   | && srcLine == src[a : a+len(srcLine)]
+//@   | && (a == 0 || src[a-1] == '\n')
+//@   | && (a + len(srcLine) == len(src) || src[a+len(srcLine)] == '\n')
+//@   | && (forall k int :: a <= k && k < a + len(srcLine) ==> src[k] != '\n')
+//@   | && line == 1 + nl(src, a)
+
+//@ func Lexer.GetLineAndCol [C12]
+//@   requires l != nil && 0 <= pos
+//@   ensures[C12] line-of-pos: pos < len(l.src) ==> lineAt(l.src, pos - result2, result0, result1)
+//@   ensures[C12] line-past-end: pos >= len(l.src) ==> lineAt(l.src, len(l.src) - len(result0), result0, result1)
+//@   ensures[C12] col-in-line: pos < len(l.src) && l.src[pos] != '\n' ==> 0 <= result2 && result2 < len(result0)
+//@   modifies nothing
+//@   loop 0 invariant bounds: 0 <= i && i <= len(l.src) && 0 <= lineStart && lineStart <= i
+//@   loop 0 invariant linestart: lineStart == 0 || l.src[lineStart-1] == '\n'
+//@   loop 0 invariant nonl: forall k int :: lineStart <= k && k < i ==> l.src[k] != '\n'
+//@   loop 0 invariant line: line == 1 + nl(l.src, lineStart) && nl(l.src, i) == nl(l.src, lineStart)
+//@   loop 0 invariant inline: (inLine <==> pos < i) && (inLine ==> col == pos - lineStart && lineStart <= pos + 1) && (!inLine ==> col == 1)
+
+// ---------------------------------------------------------------- C13: lexical layer
+
+//@ spec func isBlank(b byte) bool = b == ' ' || b == '\r' || b == '\t'
+//@ spec func isDigitB(b byte) bool = smt("isdigit", bool, b)
+//@ spec func isLetterB(b byte) bool = smt("isletter", bool, b)
+//@ spec func isIdentB(b byte) bool = b == '_' || isLetterB(b) || isDigitB(b)
+
+// cmt(s, k): start of the comment that byte k belongs to (the nearest '#' at or
+// before k with no newline in between), or -1.
+//@ spec func cmt(s string, k int) int
+//@ axiom cmtstep: forall s string, k int :: {cmt(s, k)} 0 <= k && k < len(s) ==> cmt(s, k) == (s[k] == '#' ? k : (s[k] == '\n' ? 0 - 1 : (k == 0 ? 0 - 1 : cmt(s, k-1))))
+
+//@ spec func lexOK(l *Lexer) bool = l != nil && 0 <= l.pos && l.pos <= len(l.src)
+
+//@ func Lexer.skipWhitespace [C13]
+//@   requires lexOK(l)
+//@   ensures[C13] advances: old(l.pos) <= l.pos && l.pos <= len(l.src)
+//@   ensures[C13] stops-at-token: l.pos == len(l.src) || (!isBlank(l.src[l.pos]) && l.src[l.pos] != '#')
+//@   ensures[C13] never-skips-newline: forall k int :: old(l.pos) <= k && k < l.pos ==> l.src[k] != '\n'
+//@   ensures[C13] skips-only-blank-or-comment: forall k int :: old(l.pos) <= k && k < l.pos ==> isBlank(l.src[k]) || cmt(l.src, k) >= old(l.pos)
+//@   modifies l.pos
+//@   loop 0 invariant a: old(l.pos) <= l.pos && l.pos <= len(l.src) && l.src == old(l.src)
+//@   loop 0 invariant b: forall k int :: old(l.pos) <= k && k < l.pos ==> l.src[k] != '\n'
+//@   loop 0 invariant c: forall k int :: old(l.pos) <= k && k < l.pos ==> isBlank(l.src[k]) || cmt(l.src, k) >= old(l.pos)
+//@   loop 1 invariant a: old(l.pos) <= l.pos && l.pos <= len(l.src) && l.src == old(l.src)
+//@   loop 1 invariant b: forall k int :: old(l.pos) <= k && k < l.pos ==> l.src[k] != '\n'
+//@   loop 1 invariant c: forall k int :: old(l.pos) <= k && k < l.pos ==> isBlank(l.src[k]) || cmt(l.src, k) >= old(l.pos)
+//@   loop 1 invariant d: l.pos < len(l.src) ==> l.src[l.pos] == '#' || (l.pos > old(l.pos) && cmt(l.src, l.pos - 1) >= old(l.pos))
